@@ -191,8 +191,8 @@ def _crypt_partition(P, I, rep, f, w, o, fo, seed, before):
         rep.check(bd == [I.V.bit('birthday.%d' % j) for j in range(10)] + [0] * 22, 'birthday unchanged', w, 'crypt birthday', key='CRYPT|birthday')
         # checksum' = eval(pack(seed')) with coeff[0] = 0
         I2 = Interp(P, I.V); st2 = o.state.clone(); st2.mem.new('p2', 128, 0)
-        o2 = I2.run(P.fn('polyseed_data_to_poly'), [Ptr('seed', 0), Ptr('p2', 0)], st2)[0]
-        ev = I2.run(P.fns('gf_poly_eval')[0], [Ptr('p2', 0)], o2.state)[0].ret
+        o2 = I2.run(P.fn('polyseed_data_to_poly'), P.by_type(P.fn('polyseed_data_to_poly'), seed=Ptr('seed', 0), poly=Ptr('p2', 0)), st2)[0]
+        ev = I2.run(P.fns('gf_poly_eval')[0], P.by_type(P.fns('gf_poly_eval')[0], poly=Ptr('p2', 0)), o2.state)[0].ret
         ck = get(o.state, 'seed', fo['checksum'][0], 8)
         rep.check(ck.bits == ev.bits, 'checksum\' = evaluation of the re-packed data with a zero check word (so the result is checksum-valid)', w, 'crypt checksum',
                   detail=I.V.show_bv(ck)[:3], key='CRYPT|checksum')
@@ -217,8 +217,8 @@ def _crypt_partition(P, I, rep, f, w, o, fo, seed, before):
                 rep.check(a == b, 'crypt(crypt(seed)) restores %s bit for bit (for every mask and seed)' % fld, w, 'crypt involution %s' % fld, key='CRYPT|involution-' + fld)
             # checksum after two applications = checksum of original data (which is eval(pack(seed)))
             I4 = Interp(P, I.V); st4 = State(); st4.mem.objs['seed'] = before['seed']; st4.mem.new('p4', 128, 0)
-            o4 = I4.run(P.fn('polyseed_data_to_poly'), [Ptr('seed', 0), Ptr('p4', 0)], st4)[0]
-            ev4 = I4.run(P.fns('gf_poly_eval')[0], [Ptr('p4', 0)], o4.state)[0].ret
+            o4 = I4.run(P.fn('polyseed_data_to_poly'), P.by_type(P.fn('polyseed_data_to_poly'), seed=Ptr('seed', 0), poly=Ptr('p4', 0)), st4)[0]
+            ev4 = I4.run(P.fns('gf_poly_eval')[0], P.by_type(P.fns('gf_poly_eval')[0], poly=Ptr('p4', 0)), o4.state)[0].ret
             ck3 = get(outs3[0].state, 'seed', fo['checksum'][0], 8)
             rep.check(ck3.bits == ev4.bits, 'after two applications the check value is the one of the original data', w, 'crypt involution checksum', key='CRYPT|involution-checksum')
         else:
@@ -397,8 +397,8 @@ def create(ctx, rep):
             ur = [e for e in o.state.events if e[0] in ('uninit-read', 'branch-on-uninit')]
             rep.check(not ur, 'no read of uninitialised memory', w, 'create', detail=ur[:3], key='CREATE|uninit-read')
             I2 = Interp(P, I.V); st2 = o.state.clone(); st2.mem.new('p2', 128, 0)
-            o2 = I2.run(P.fn('polyseed_data_to_poly'), [Ptr(H, 0), Ptr('p2', 0)], st2)[0]
-            ev = I2.run(P.fns('gf_poly_eval')[0], [Ptr('p2', 0)], o2.state)[0].ret
+            o2 = I2.run(P.fn('polyseed_data_to_poly'), P.by_type(P.fn('polyseed_data_to_poly'), seed=Ptr(H, 0), poly=Ptr('p2', 0)), st2)[0]
+            ev = I2.run(P.fns('gf_poly_eval')[0], P.by_type(P.fns('gf_poly_eval')[0], poly=Ptr('p2', 0)), o2.state)[0].ret
             ck = get(o.state, H, fo['checksum'][0], 8)
             rep.check([o.state.cons.reduce(b) for b in ck.bits] == [o.state.cons.reduce(b) for b in ev.bits], 'checksum = evaluation of the packed seed with a zero check word', w, 'create checksum', key='CREATE|checksum')
             so_ = I.load(o.state, Ptr('seed_out', 0), 8, f.blocks[0][0], as_ptr=True)
@@ -682,7 +682,7 @@ def _expected_accept(I, P, coin, lay):
         v = I.V.bv('idx%d' % k, GF_BITS).bits
         if k == 1: v = [bxor(x, y) for x, y in zip(v, coin.bits[:GF_BITS])]
         put(st2, 'p', 8 * k, BV(v + [0] * 53))
-    ev = I2.run(P.fns('gf_poly_eval')[0], [Ptr('p', 0)], st2)[0].ret
+    ev = I2.run(P.fns('gf_poly_eval')[0], P.by_type(P.fns('gf_poly_eval')[0], poly=Ptr('p', 0)), st2)[0].ret
     E = Constraints()
     for b in ev.bits:
         if b != 0: E.add(b, 0)
@@ -705,7 +705,7 @@ def _checksum_passed(I, P, o):
         v = I.V.bv('idx%d' % k, GF_BITS).bits
         if k == 1: v = [bxor(x, y) for x, y in zip(v, coin.bits)]
         put(st2, 'p', 8 * k, BV(v + [0] * 53))
-    ev = I2.run(P.fns('gf_poly_eval')[0], [Ptr('p', 0)], st2)[0].ret
+    ev = I2.run(P.fns('gf_poly_eval')[0], P.by_type(P.fns('gf_poly_eval')[0], poly=Ptr('p', 0)), st2)[0].ret
     return all(o.state.cons.reduce(b) == 0 for b in ev.bits)
 
 
@@ -800,8 +800,8 @@ def _load_checksum_zero(I, P, o, C):
     v2 = [I.V.bit('in[30].%d' % j) for j in range(8)] + [I.V.bit('in[31].%d' % j) for j in range(3)]
     st2.mem.new('p', 128, 0)
     put(st2, 'p', 0, BV(v2 + [0] * 53))
-    o2 = I2.run(P.fn('polyseed_data_to_poly'), [seed, Ptr('p', 0)], st2)[0]
-    ev = I2.run(P.fns('gf_poly_eval')[0], [Ptr('p', 0)], o2.state)[0].ret
+    o2 = I2.run(P.fn('polyseed_data_to_poly'), P.by_type(P.fn('polyseed_data_to_poly'), seed=seed, poly=Ptr('p', 0)), st2)[0]
+    ev = I2.run(P.fns('gf_poly_eval')[0], P.by_type(P.fns('gf_poly_eval')[0], poly=Ptr('p', 0)), o2.state)[0].ret
     red = [C.reduce(b) for b in ev.bits]
     if all(b == 0 for b in red): return True
     if any(b == 1 for b in red): return False
